@@ -1231,9 +1231,115 @@ def zk_payload_case(draw):
             second[keys[draw(_ints(0, len(keys) - 1))]] = extra
         else:
             second.append(extra)
-    return {'codec': 'zkpayload',
-            'op': draw(_pick('put', 'create', 'update', 'put-over')),
-            'a': first, 'b': second}
+    opname = draw(_pick('put', 'create', 'update', 'put-over',
+                        'put-rewrite', 'update-rewrite'))
+    case = {'codec': 'zkpayload', 'op': opname, 'a': first, 'b': second}
+    if opname in _ZK_REWRITE_OPS:
+        # the node already holds an object (written by the same API) that
+        # is close to the one written now: what is read back after the
+        # write must not depend on what was there before
+        case['hist_a'] = _zk_history(draw, first)
+        case['hist_b'] = _zk_history(draw, second)
+    return case
+
+
+_ZK_REWRITE_OPS = ('put-rewrite', 'update-rewrite')
+
+
+def _retyped(value, how):
+    """The values of the other JSON number / boolean types that Python
+    ``==`` identifies with ``value`` (True == 1 == 1.0, False == 0 == 0.0,
+    10 == 10.0), or () if there is none."""
+    out = []
+    if isinstance(value, bool):
+        out = [int(value), float(value)]
+    elif isinstance(value, int):
+        if value in (0, 1):
+            out.append(bool(value))
+        try:
+            if float(value) == value:
+                out.append(float(value))
+        except OverflowError:
+            pass
+    elif isinstance(value, float):
+        if value == value and value not in (float('inf'), float('-inf')) \
+                and int(value) == value:
+            out.append(int(value))
+            if value in (0.0, 1.0):
+                out.append(bool(value))
+    return out[how % len(out)] if out else None
+
+
+def _retypable_leaves(obj, path=()):
+    found = []
+    if isinstance(obj, dict):
+        for key in sorted(obj):
+            found.extend(_retypable_leaves(obj[key], path + (key,)))
+    elif isinstance(obj, list):
+        for idx, item in enumerate(obj):
+            found.extend(_retypable_leaves(item, path + (idx,)))
+    elif _retyped(obj, 0) is not None and path:
+        found.append(path)
+    return found
+
+
+def _type_variant(draw, obj):
+    """A copy of ``obj`` that is equal to it under Python ``==`` but has
+    another bool / int / float type at one or more leaves (any depth);
+    None if ``obj`` has no such leaf."""
+    out = copy.deepcopy(obj)
+    paths = _retypable_leaves(out)
+    if not paths:
+        return None
+    count = draw(_pick(1, 1, 1, 2, len(paths)))
+    start = draw(_ints(0, len(paths) - 1))
+    for off in range(min(count, len(paths))):
+        path = paths[(start + off) % len(paths)]
+        target = out
+        for step in path[:-1]:
+            target = target[step]
+        target[path[-1]] = _retyped(target[path[-1]], draw(_ints(0, 1)))
+    return out
+
+
+def _zk_history(draw, val):
+    """What the node held before ``val`` is written over it: one or two
+    earlier objects, the last of them the same object, the same object with
+    other key order, an ``==``-equal object of other leaf types, the object
+    but for one value, or an unrelated one."""
+    hist = []
+    if draw(_ints(0, 3)) == 0:
+        hist.append(draw(_json_container()))
+    mode = draw(_pick('retype', 'retype', 'retype', 'same', 'reorder',
+                      'tweak', 'indep'))
+    prev = None
+    if mode == 'retype':
+        prev = _type_variant(draw, val)
+        if prev is None:
+            # no bool / number leaf: give both sides one
+            leaf = draw(_pick(0, 1, False, True, 0.0, 1.0, 10, 10.0, -3))
+            if isinstance(val, dict):
+                keys = sorted(val) or ['k']
+                val[keys[draw(_ints(0, len(keys) - 1))]] = leaf
+            else:
+                val.append(leaf)
+            prev = _type_variant(draw, val)
+    elif mode == 'same':
+        prev = copy.deepcopy(val)
+    elif mode == 'reorder':
+        prev = _reordered(copy.deepcopy(val))
+    elif mode == 'tweak':
+        prev = copy.deepcopy(val)
+        extra = draw(_json_values())
+        if isinstance(prev, dict):
+            keys = sorted(prev) or ['k']
+            prev[keys[draw(_ints(0, len(keys) - 1))]] = extra
+        else:
+            prev.append(extra)
+    else:
+        prev = draw(_json_container())
+    hist.append(prev)
+    return hist
 
 
 def _reordered(obj):
@@ -1245,9 +1351,21 @@ def _reordered(obj):
     return obj
 
 
-def _zk_write(zkclient, opname, path, obj):
+def _zk_write(zkclient, opname, path, obj, hist=()):
     from treadmill import zkutils
-    if opname == 'put':
+    if opname in _ZK_REWRITE_OPS:
+        # the node's history: created by put, then every later object is
+        # written the way the masterapi / cellsync / loader writers do
+        for num, earlier in enumerate(list(hist) + [obj]):
+            if num == 0:
+                zkutils.put(zkclient, path, copy.deepcopy(earlier))
+            elif opname == 'put-rewrite':
+                zkutils.put(zkclient, path, copy.deepcopy(earlier),
+                            check_content=True)
+            else:
+                zkutils.update(zkclient, path, copy.deepcopy(earlier),
+                               check_content=True)
+    elif opname == 'put':
         zkutils.put(zkclient, path, obj)
     elif opname == 'create':
         zkutils.create(zkclient, path, obj)
@@ -1285,19 +1403,44 @@ def check_zkpayload(case, stats):
     for idx, val in enumerate(vals):
         zkclient = _CaptureZk()
         path = '/c15/node-%d' % idx
+        hist = case.get('hist_' + 'ab'[idx]) or []
         _real('c15.zkpayload.encode', '%s(%s)' % (case['op'], _short(val)),
-              _zk_write, zkclient, case['op'], path, copy.deepcopy(val))
+              _zk_write, zkclient, case['op'], path, copy.deepcopy(val),
+              hist)
         raw = zkclient.nodes[path]
         back, _meta = _real('c15.zkpayload.decode', 'get(%r) for %s' %
                             (raw[:200], _short(val)),
                             zkutils.get_with_metadata, zkclient, path)
         if not same(back, val):
+            if case['op'] in _ZK_REWRITE_OPS and hist:
+                fresh = _CaptureZk()
+                _zk_write(fresh, 'put', path, copy.deepcopy(val))
+                if same(zkutils.get(fresh, path), val):
+                    # the codec is fine on a fresh node: what is read back
+                    # depends on what the node held before the write
+                    kind = ('stale-equal-value' if back == val
+                            else 'stale')
+                    raise Violation(
+                        'c15.zkpayload.rewrite-roundtrip.' + kind,
+                        '%s(%s, check_content=True) over a node holding '
+                        '%s leaves %r which reads back as %s' %
+                        (case['op'].split('-')[0], _short(val),
+                         _short(hist[-1]), raw[:200], _short(back)))
             raise Violation(
                 'c15.zkpayload.roundtrip',
                 '%s(%s) stores %r which reads back as %s' %
                 (case['op'], _short(val), raw[:200], _short(back)))
+        if case['op'] in _ZK_REWRITE_OPS and hist:
+            prev = hist[-1]
+            if same(prev, val):
+                stats.count('zkpayload:rewrite-identical')
+            elif prev == val:
+                stats.count('zkpayload:rewrite-retyped')
+                nontrivial = True
+            else:
+                stats.count('zkpayload:rewrite-changed')
         other = _CaptureZk()
-        _zk_write(other, case['op'], path, _reordered(val))
+        _zk_write(other, case['op'], path, _reordered(val), hist)
         if other.nodes[path] != raw:
             raise Violation(
                 'c15.zkpayload.not-canonical',
